@@ -332,7 +332,17 @@ def run_property(mod, tier: str, seed: int) -> int:
         # 3. correspond (+ oracle on every case)
         drivers_ok = ok or not drive
         if drivers_ok:
-            mod.correspond(ctx)
+            try:
+                mod.correspond(ctx)
+            except InfraError:
+                raise
+            except Exception as e:
+                # the harness cannot drive/observe this implementation any more (a structure it reads changed, a call it
+                # makes is rejected): on the unchanged tree this does not happen, so it is a broken correspondence —
+                # the decision below reports it (with whatever failing inputs the oracle found before the crash)
+                ctx.disagree("harness-cannot-drive-the-implementation", (ctx.samples[-1:] or [None])[0],
+                             "every modelled operation can be driven and observed",
+                             f"{type(e).__name__}: {e}"[:300] + " || " + traceback.format_exc()[-1200:])
         else:
             # the model itself no longer builds: run the implementation side + oracle only
             ctx.notes.append("lean driver unavailable (build failed); oracle-only run")
